@@ -134,6 +134,10 @@ def inputs_for(T, env, rng):
             w = typelib.marshal(v, t=ann)
             outs.append(("wire", w))
             outs.append(("json", json.dumps(w)))
+            # class positions as instances of exactly those classes whose members still hold wire values
+            ri, replaced = vs.raw_instance(T, w, env, env.defs)
+            if replaced:
+                outs.append(("rawinst", ri))
         except Exception:
             pass
     outs += [("junk", j) for j in (None, "abc", 12, [1, "x"], {"a": "1", "b": "2020-01-01", "n": "3", "x": "5", "v": "1"}, "[1]")]
